@@ -139,7 +139,8 @@ def report(ctx, leg, case, failures):
 CORNER_PROBE = [(1.0, 1.000001, 1.000001), (0.5, 2.0000005, 2.0000005), (0.25, 1.00000025, 1.00000025),
                 (1.0, 1.5000005, 3.000001),          # a time scheduled exactly at t_end = t_final + 1e-6*dt is missed
                 (1.0, 1.2, 2.3), (0.5, 0.7, 1.6),    # the extra frame of a general range is not at the final time
-                (1.0, 1.0000002, 2.0), (0.25, 0.2500001, 1.0)]  # whole range: a time in (t_end, t_end+1e-6*dt) adds a frame
+                (1.0, 1.0000002, 2.0), (0.25, 0.25000001, 1.0),  # whole range: a time in (t_end, t_end+1e-6*dt) adds a frame
+                (0.25, 0.2500001, 1.0)]              # ... and just beyond that sliver (4e-7 > 2.5e-7) it does not: holds
 
 
 def corner_probe(ctx):
